@@ -827,6 +827,16 @@ Lemma conditional_shutdown_leaves_parked : forall e,
   r_read (r_closeForShutdown_unless_cancelled r e) = RBlock /\ r_read (r_closeForShutdown r e) = RErr e.
 Proof. intros e. split; reflexivity. Qed.
 
+(** why the datagram queue must be closed whatever the own EnableDatagrams says: on a send-only connection (own flag
+    off, peer's on) a fan-out that skips the queue lets a later SendDatagram succeed while there is room and park
+    for ever when the 32 slots are full *)
+Lemma dg_close_must_not_depend_on_own_flag : forall e room,
+  let a := {| a_mapErr := None; a_dgErr := None; a_rstreams := []; a_sstreams := []; a_canOpen := false;
+              a_canAccept := false; a_rcvQueued := false; a_sendRoom := room |} in
+  api_call (fanout_dg_if_enabled false a e) CSendDatagram = (if room then ROk else RBlock) /\
+  api_call (fanout a e) CSendDatagram = RErr e.
+Proof. intros e []; split; reflexivity. Qed.
+
 (** ** 4b. Any number of parked callers per call *)
 
 Lemma woken_from_all : forall ps served,
